@@ -327,6 +327,15 @@ func runC16(r *hx.Result, cfg hx.Config) {
 		runArgFuzz(r, cfg, rng)
 		return
 	}
+	if os.Getenv("VERIF_C16_ONLY") == "http" { // replay aid: the HTTP path / metrics parts
+		runMvtModel(r, cfg, rand.New(rand.NewSource(cfg.Seed^0x17)))
+		runMetricsScrape(r, cfg, rand.New(rand.NewSource(cfg.Seed^0x18)))
+		a := &argFuzz{r: r, dir: cfg.Work, readTimeout: 10 * time.Second}
+		a.start()
+		a.runHTTPPaths(cfg, rand.New(rand.NewSource(cfg.Seed^0x19)))
+		a.s.Kill()
+		return
+	}
 	if os.Getenv("VERIF_C16_ONLY") == "live" { // replay aid: only the live hand-over sweep
 		runLiveHandover(r, cfg, rand.New(rand.NewSource(cfg.Seed^0x16)))
 		return
@@ -596,6 +605,10 @@ func runC16(r *hx.Result, cfg hx.Config) {
 
 	// ---- B3. across the hand-over to live mode: SUBSCRIBE / PSUBSCRIBE / live FENCE followed by commands, every cut ----
 	runLiveHandover(r, cfg, rand.New(rand.NewSource(cfg.Seed^0x16)))
+
+	// ---- B4. the HTTP tile-path rewrite against its model; the metrics endpoint under invalid UTF-8 ----
+	runMvtModel(r, cfg, rand.New(rand.NewSource(cfg.Seed^0x17)))
+	runMetricsScrape(r, cfg, rand.New(rand.NewSource(cfg.Seed^0x18)))
 
 	// ---- D. argument-level malformed stream (well-framed commands, hostile arguments) ----
 	runArgFuzz(r, cfg, rng)
